@@ -161,9 +161,11 @@ def stepSlice (st : St) (op : String) (kv : KV) : St × String :=
   | "s.new" =>
     let page := kv.nat "page"
     let bytes := kv.bytes "data"
-    let bm := if page = 0 then none else some (ABitmap.new bytes.length page)
+    -- the root accessor may itself be a slice (at `bmoff`) of a larger tracked area
+    let bmoff := kv.nat "bmoff"
+    let bm := if page = 0 then none else some (ABitmap.new (bmoff + bytes.length) page)
     let m : Mem := { base := kv.nat "base", bytes := bytes, bm := bm }
-    ({ st with mem := m, acc := #[some (.sl m.root)] }, s!"ok {fmtMem m}")
+    ({ st with mem := m, acc := #[some (.sl { m.root with bmBase := bmoff })] }, s!"ok {fmtMem m}")
   | "s.bmreset" =>
     let m' := { m with bm := m.bm.map ABitmap.reset }
     ({ st with mem := m' }, s!"ok {fmtMem m'}")
@@ -174,7 +176,7 @@ def stepSlice (st : St) (op : String) (kv : KV) : St × String :=
   | none => (st, "bad-id")
   | some (.sl s) =>
     match op with
-    | "s.sub" => derive (s.subslice (kv.nat "off") (kv.nat "cnt"))
+    | "s.sub" | "s.gsl" => derive (s.subslice (kv.nat "off") (kv.nat "cnt"))
     | "s.off" => derive (s.offset (kv.nat "cnt"))
     | "s.split" =>
       match s.splitAt (kv.nat "mid") with
